@@ -314,13 +314,15 @@ func (c *Coordinator) alleviateShardHeadSeries(s *shardInfo, changeAbleShards []
 			break
 		}
 
-		if tar.TargetState != target.StateNormal || tar.Health != scrape.HealthGood || tar.ScrapeTimes < minWaitScrapeTimes {
-			continue
-		}
-
+		// a too big target keeps this shard overloaded whatever else is moved away,
+		// also while it is not (yet) a candidate for being moved itself
 		if tar.Series > c.option.MaxHeadSeries || tar.TotalSeries > c.option.MaxProcessSeries {
 			c.log.Warnf("too big series [%d] series is [%d], skip alleviate", hash, tar.Series)
 			return 0
+		}
+
+		if tar.TargetState != target.StateNormal || tar.Health != scrape.HealthGood || tar.ScrapeTimes < minWaitScrapeTimes {
+			continue
 		}
 
 		// try transfer target to other shard
@@ -360,13 +362,15 @@ func (c *Coordinator) alleviateShardProcessSeries(s *shardInfo, changeAbleShards
 			break
 		}
 
-		if tar.TotalSeries == 0 || tar.TargetState != target.StateNormal || tar.Health != scrape.HealthGood || tar.ScrapeTimes < minWaitScrapeTimes {
-			continue
-		}
-
+		// a too big target keeps this shard overloaded whatever else is moved away,
+		// also while it is not (yet) a candidate for being moved itself
 		if tar.TotalSeries > c.option.MaxProcessSeries {
 			c.log.Warnf("too big series [%d] series is [%d], skip alleviate", hash, tar.Series)
 			return 0
+		}
+
+		if tar.TotalSeries == 0 || tar.TargetState != target.StateNormal || tar.Health != scrape.HealthGood || tar.ScrapeTimes < minWaitScrapeTimes {
+			continue
 		}
 
 		// try transfer target to other shard
